@@ -209,7 +209,10 @@ def run(ctx, f, rep):
             e0 = b.expr_of_operand(a0)
             on_heap = "BinaryHeap" in fn["path"] and any(isinstance(x, tuple) and x and x[0] == "field" and x[2] == names["heap"] for x in walk_expr(e0))
             # the ticket counter: every atomic of the queue's own module (the field itself, or a private newtype around it)
-            on_ctr = "Atomic" in fn["path"] and qmod in b.path
+            # (the counter field itself wherever it is used, and - when it is wrapped - every atomic inside the wrapper's methods)
+            on_ctr = "Atomic" in fn["path"] and (
+                any(isinstance(x, tuple) and x and x[0] == "field" and x[2] == names.get("counter") for x in walk_expr(e0)) or
+                (names.get("counter_newtype") is not None and names["counter_newtype"] in b.path))
             if on_heap:
                 heap_ops.setdefault(fn["name"], []).append((b, bb))
             if on_ctr:
